@@ -211,10 +211,19 @@ Print Assumptions C13_refuted.
 Theorem C13_reference_agrees :
   (forall h i, In h helper_table -> valid_id i = true ->
      model_trip method_registry h i = spec_trip method_registry (h_side h) (h_name h)) /\
+  (* ... also after any history of other operations of the requester between the request and its
+     reply: $/cancelRequest for the pending id, further requests, notifications, stray frames *)
+  (forall obj structure h i evs, In h helper_table -> valid_id i = true ->
+     forallb (other_id i) evs = true ->
+     model_trip_after obj structure method_registry h i evs
+     = spec_trip method_registry (h_side h) (h_name h)) /\
   (forall j, wf_json j = true -> forall p leaf, In (p, leaf) (spec_leaves j) ->
      jget j p = Some leaf /\ forallb good_step p = true /\ is_scalar leaf = true).
 Proof.
-  split; [|exact spec_leaves_sound].
+  assert (T : forall h i, In h helper_table -> valid_id i = true ->
+     model_trip method_registry h i = spec_trip method_registry (h_side h) (h_name h)).
+  2:{ split; [exact T|split; [|exact spec_leaves_sound]].
+      intros. rewrite trip_after_history by assumption. apply T; assumption. }
   intros h i Hin Hv. pose proof helpers_ok_current as H. unfold helpers_ok in H.
   apply andb_true_iff in H as [H _]. apply andb_true_iff in H as [H _].
   apply andb_true_iff in H as [H _]. apply andb_true_iff in H as [Hreg Hok].
